@@ -286,6 +286,7 @@ func c06Reverse(c *fw.Ctx, cfg ACfg, now0 int64, depth, maxStates int) {
 func runC06(c *fw.Ctx) {
 	var layouts []LayoutDef
 	layouts = append(layouts, CoreLayouts...)
+	layouts = append(layouts, LayoutByTag("L11")) // steps with prime factors other than 2 and 3
 	depth, maxCore := 3, 200
 	if c.Thorough() {
 		depth, maxCore = 4, 600
@@ -301,7 +302,7 @@ func runC06(c *fw.Ctx) {
 	for li, ld := range layouts {
 		clocks := Clocks(ld.Archs, false, []string{"mid"})
 		clocks = []int64{clocks[0], clocks[len(clocks)-1]}
-		if li < len(CoreLayouts) {
+		if li < len(CoreLayouts)+1 {
 			lo, hi := Clocks(ld.Archs, false, []string{"low"}), Clocks(ld.Archs, false, []string{"high"})
 			clocks = append(clocks, lo[len(lo)-1], hi[0])
 		}
@@ -322,7 +323,7 @@ func runC06(c *fw.Ctx) {
 				}
 				cfg := ACfg{Tag: ld.Tag, Spec: ld.Spec, Archs: ld.Archs, Method: m.m, XFF: m.xff, Page: page}
 				e := &Explorer{C: c, Cfg: cfg, Now0: now, Depth: depth, Gen: c06Gen(cfg.Archs), Judge: c06FormatJudge, MaxCore: maxCore}
-				if li >= len(CoreLayouts) {
+				if li >= len(CoreLayouts)+1 {
 					e.Depth, e.MaxCore = 3, 60
 				}
 				e.OnCore = func(st AState, rings []wsp.Ring) { c06CrossRead(c, cfg, st, "whispertool", false) }
